@@ -49,7 +49,8 @@ def make_matrix(rng, kind, n):
         U = _orth(rng, nx)
         H = (U * rng.uniform(1.0, 10.0, size=nx)) @ U.T
         J = rng.normal(size=(m, nx)) * (rng.random(size=(m, nx)) < 0.6)
-        delta = 10.0 ** rng.uniform(-2, 0)
+        # dual regularisation from moderate to tiny-but-non-zero (as the symmetric step solver produces for long steps)
+        delta = 10.0 ** rng.uniform(-2, 0) if rng.random() < 0.5 else 10.0 ** rng.uniform(-14, -2)
         A = np.block([[0.5 * (H + H.T), J.T], [J, -delta * np.eye(m)]])
     elif kind == "unsym":
         A = (_orth(rng, n) * sv) @ _orth(rng, n).T
@@ -87,7 +88,11 @@ def make_singular(rng, n):
     return A, how
 
 
-def pack(A, fmt):
+def pack(A, fmt, dup=0):
+    if dup:
+        from ..gen import _pack
+
+        return _pack(A, fmt, dup, shape=A.shape)
     return {"coo": sps.coo_matrix, "csr": sps.csr_matrix, "csc": sps.csc_matrix}[fmt](A)
 
 
@@ -191,7 +196,9 @@ def run_case(case):
                     cond=float(np.linalg.cond(A)))
         Acopy = np.copy(A)
         bcopy = np.copy(b)
-        mat = pack(A, fmt)
+        dup = int(rng.choice([0, 0, 0, 1, 2]))
+        bump("noncanonical_storage", int(bool(dup)))
+        mat = pack(A, fmt, dup)
         try:
             slv = linear_solver(mat, getattr(T, solver), symmetric=sym) if solver != "LU" or sym \
                 else linear_solver(mat, T.LU)
